@@ -5,3 +5,12 @@ StrT = RealT          # S5: only equality and order of labels / annotators matte
 SegT = lambda: RecT("Segment", start=RealT(), end=RealT())           # noqa: E731
 UnitT = lambda: RecT("Unit", segment=SegT(), annotation=OptT(StrT()))  # noqa: E731
 RowT = lambda: NdArray("f32", 1)                                      # noqa: E731  encoded unit (start, end, dur, category index)
+
+
+from pyvc.contract import ListOf as _ListOf     # noqa: E402
+
+
+class StrListOf(_ListOf):
+    """a list of strings (by their codes): the marker lets library models tell it from a list of numbers (np.array(.., dtype=float) PARSES it)"""
+    def __init__(self):
+        super().__init__(StrT())
